@@ -5,7 +5,8 @@
    -- and per Truncate call of a rewind -- None = done, Some _ = the call fails or the writer has no
    Truncate method) and theories/Fault.v (operations, sticky write error, acknowledged blocks, wf_final).
    kn: 0 blockstore.ReadWrite, 1 / 2 storage on a WriterAt (readable / write-only), 3 storage on a
-   plain io.Writer.  [sticky kn s] = the store's sticky write error (writeErr) is set. *)
+   plain io.Writer, 4 storage on a WriterAt without a Truncate method ([fopen kn] opens the target).
+   [sticky kn s] = the store's sticky write error (writeErr) is set. *)
 From GoCar Require Import Bytes Varint Cid Header Frame V2Header Index Store Fault.
 From GoCarProofs Require Import StoreInv FaultWf FaultMain.
 
@@ -26,7 +27,7 @@ Theorem C16_failed_put_changes_nothing :
   forall (hdrdec : bytes -> option (list bytes * N)) kn o nilroots roots faults ops s0 sn tr c d s' out,
     base_fits o -> hdr_ok nilroots roots ->
     forallb (op_okb kn) ops = true -> ops_small ops -> blk_small (c, d) ->
-    open_new (kind_of kn) o nilroots roots faults = Ok s0 ->
+    fopen kn o nilroots roots faults = Ok s0 ->
     frun hdrdec kn s0 ops = (sn, tr) ->
     fstep hdrdec kn sn (FPut c d) = (s', out) -> is_err out = true ->
     ws_idx s' = ws_idx sn /\ (ws_file s' = ws_file sn \/ sticky kn s' = true).
@@ -57,7 +58,7 @@ Theorem C16_no_poison :
   forall (hdrdec : bytes -> option (list bytes * N)) kn o nilroots roots faults pre op s0 sn tr,
     hdr_ok nilroots roots ->
     forallb (op_okb kn) (pre ++ [op]) = true -> ops_small (pre ++ [op]) ->
-    open_new (kind_of kn) o nilroots roots faults = Ok s0 ->
+    fopen kn o nilroots roots faults = Ok s0 ->
     frun hdrdec kn s0 (pre ++ [op]) = (sn, tr) ->
     is_finalize op = true -> snd (last tr (s0, ONil)) = ONil ->
     51 + w_dpad o + w_ipad o
@@ -73,7 +74,7 @@ Theorem C16_carv1_complete_at_every_moment :
   forall (hdrdec : bytes -> option (list bytes * N)) kn o nilroots roots faults ops s0 sn tr,
     base_fits o -> hdr_ok nilroots roots ->
     forallb (op_okb kn) ops = true -> ops_small ops ->
-    open_new (kind_of kn) o nilroots roots faults = Ok s0 ->
+    fopen kn o nilroots roots faults = Ok s0 ->
     frun hdrdec kn s0 ops = (sn, tr) ->
     w_v1 o = true -> sticky kn sn = false ->
     wf_final (ws_file sn) = Some (roots, acked o nilroots roots ops (map obs_of tr)).
@@ -85,7 +86,7 @@ Theorem C16_carv1_complete_after_successful_put :
   forall (hdrdec : bytes -> option (list bytes * N)) kn o nilroots roots faults pre op s0 sn tr,
     base_fits o -> hdr_ok nilroots roots ->
     forallb (op_okb kn) (pre ++ [op]) = true -> ops_small (pre ++ [op]) ->
-    open_new (kind_of kn) o nilroots roots faults = Ok s0 ->
+    fopen kn o nilroots roots faults = Ok s0 ->
     frun hdrdec kn s0 (pre ++ [op]) = (sn, tr) ->
     w_v1 o = true -> (exists c d, op = FPut c d) \/ (exists bs, op = FPutMany bs) ->
     snd (last tr (s0, ONil)) = ONil ->
